@@ -35,6 +35,8 @@ CLAIMS = {
          "copy clamps by both vectors and shifts every source word by the difference of the bit offsets in the misaligned branches; try_chunks_mut slices exactly ceil(len*w/BITS) words into ceil(chunk*w/BITS)-word views of min(chunk, remaining) elements; the unaligned read uses bit/8 and bit%8; sequential and parallel fill/flip/reset/count agree; loops are bounded by the logical length. Bit-exact equality of the fast paths is not decided."),
  "C11": ("constant evaluation + compiler type layouts + documented-formula families + interval sampling of the expansion factor", "5 C11",
          "bytes of counters per block (from rustc's layouts) over the block size equal the documented overheads; Select9 inventory sizes; Elias-Fano l and high/low sizes follow the documented formula on integers; functions size l from ceil(c*max shard) with l >= 1 and c within 1.23 / 1.135 (known finding for the unsharded logic); packed vectors allocate ceil(len*w/BITS) words. mem_size itself and rounding for tiny inputs are not decided."),
+ "C09": ("writer/reader table agreement for the VByte code, block-protocol agreement between builder and decoders, iterator start protocol", "5 C09",
+         "encode_int/decode_int agree per code length on threshold, offset, prefix, mask and byte positions (thresholds = cumulative 128^k); builder and the three decoders use the same block predicate, NUL termination and truncate-by-rear-length; the in-block scan is clamped to the strings present; is_sorted is cleared exactly on a descent (length tie-break included) and index_of dispatches on it; lenders starting at len are exhausted. Byte-string comparison routines are not decided on all inputs."),
  "C12": ("unsafe-site census with guard dominance and a table of construction invariants", "5 C12",
          "every unsafe call in a safe function is discharged by dominating facts or rests on a tabled construction invariant; unchecked-precondition functions are unsafe fn; iterator start protocol; universe guard. The construction invariants themselves are assumptions."),
 }
